@@ -8,7 +8,7 @@ From Coq Require Import ZArith List Bool String.
 From Coq.Strings Require Import Byte.
 Import ListNotations.
 Require Import MS.Base.GoInt MS.Base.Res MS.Base.Hex MS.Base.Bytes MS.Base.Tz MS.Model.TimeIndex MS.Model.Ticks
-               MS.Generated.Src_repl MS.Model.Repl MS.Proofs.Repl_facts.
+               MS.Generated.Src_repl MS.Model.Repl MS.Proofs.Repl_facts MS.Proofs.Ticks_decoder MS.Proofs.Repl_close.
 Local Open Scope Z_scope.
 
 (** Guarded statement.  For EVERY tick codec (get_ticks, time_from_ticks: any functions), EVERY initial
@@ -54,6 +54,31 @@ Definition tft : Z -> Z -> Z -> Z * Z := dec.
 Definition C25_variable_close : Prop := forall tgs,
   run_okb gt tft [] tgs = true ->
   exists sr, replica_run gt tft [] tgs = ROk sr /\ convergedb tft (master_run [] tgs) sr = true.
+
+(** Proved part of it, at the level of one record (corollary of builder-B's analytic round-trip bound
+    C10_roundtrip_partial, hence under its side condition [dec_nowrapb] on the re-encoded tick; Flocq's Reals
+    axioms).  The master shows a record with ticks k at offset o_m = dec_offset ipd k from the interval start; the
+    replica stores k' = enc ipd o_m (by C25_guarded / C25_retick_reencodes, with [gt] below being enc of the offset
+    from the interval base) and shows it at o_r = dec_offset ipd k'.  Then o_r is in the interval, NOT AFTER o_m, at
+    most ONE resolution step (ceil(interval/2^32) ns) before it, and EQUAL to it for 1Sec buckets.
+    What is still missing for the store-level [C25_variable_close]: GetTimeFromTicks with a non-zero interval start
+    ([dec start] vs [dec 0]), exactness of IndexToTimeDepr's float quotient (base of [gt] = interval start), and the
+    bookkeeping through the tick-sorted slots and the row matching of [convergedb]. *)
+Theorem C25_variable_close_partial : forall ipd k,
+  In ipd ipds ->
+  let o_m := dec_offset ipd k in
+  0 <= o_m < interval_ns ipd ->
+  dec_nowrapb ipd (enc ipd o_m) = true ->
+  let o_r := dec_offset ipd (enc ipd o_m) in
+  0 <= o_r <= o_m /\ o_m - o_r <= Ticks.step_ns ipd /\ (ipd = 86400 -> o_r = o_m).
+Proof. exact reencode_close. Qed.
+Print Assumptions C25_variable_close_partial.
+
+(** the model's concrete get_ticks is enc of the offset from the base IndexToTimeDepr computes *)
+Theorem C25_gt_is_enc : forall t idx ipd, ipd <> 0 ->
+  gt t idx ipd = enc ipd (t - (year_start tz_utc (year_of tz_utc t) + index_to_second_of_year idx ipd * NS)).
+Proof. intros t idx ipd H. unfold gt. destruct (Z.eqb_spec ipd 0); [contradiction | reflexivity]. Qed.
+Print Assumptions C25_gt_is_enc.
 
 Definition b (s : string) : list byte := bytes_of_string s.
 Local Open Scope string_scope.
